@@ -337,9 +337,12 @@ async fn registration_task<F>(
                 ..
             } => {
                 debug!(path = %path, "Attaching new client downlink.");
-                if let (Ok(in_res), Ok(out_res)) =
-                    join(incoming_tx.reserve(), outgoing_tx.reserve()).await
-                {
+                // The capacity must be reserved in sequence. If the outgoing slot is held while
+                // waiting for the incoming slot, the incoming task (which may itself be waiting
+                // to register with the outgoing task) can never make progress.
+                let in_res = incoming_tx.reserve().await;
+                let out_res = outgoing_tx.reserve().await;
+                if let (Ok(in_res), Ok(out_res)) = (in_res, out_res) {
                     let (in_done_tx, in_done_rx) = trigger::trigger();
                     let (out_done_tx, out_done_rx) = oneshot::channel();
                     in_res.send(RegisterIncoming {
